@@ -76,6 +76,7 @@ const (
 	ConfigLoad
 	LintAllRules
 	TransformRules
+	KeywordsAPI
 	NKinds
 )
 
@@ -85,7 +86,8 @@ var names = [...]string{"tokenize-direct", "tokenize-pooled", "gosqlx.Parse", "g
 	"gosqlx.Extract*", "security.ScanSQL", "security.Scan", "linter.LintString", "errors.SuggestKeyword", "observe-stats",
 	"monitor.Record*", "ast.SetSpan/GetSpan", "Parser(strict).ParseFromModelTokens", "GetParser+ApplyOptions+Parse+PutParser",
 	"Parser.ParseFromModelTokensWithPositions", "gosqlx.ParseWithContext(cancelled at poll k)", "transform.Apply(AddWhereFromSQL/AddJoinFromSQL rule values shared across calls)", "config.LoadFromFileCached", "linter(all rules incl. L006/L009).LintString (race/crash only)",
-	"transform.Apply(caller-built rules: replace/remove/add where, columns, joins, paging, ordering, tables; detached parts kept)"}
+	"transform.Apply(caller-built rules: replace/remove/add where, columns, joins, paging, ordering, tables; detached parts kept)",
+	"keywords.New(dialect)+IsKeyword/IsReserved/GetTokenType/AddKeyword on the caller's own instance"}
 
 func (k Kind) String() string { return names[k] }
 
@@ -303,8 +305,27 @@ func (o Op) Exec(hold bool) (res string, held []Held) {
 		res = treeCanon(a, err) + " tokens=" + canon.Of(toks)
 		keepTree(a)
 		keep("parser-tokens", toks, nil)
+	case KeywordsAPI:
+		// an instance of the keyword table is the caller's own: what it answers
+		// depends on its dialect and on what THIS caller added, on nothing else
+		ds := keywords.AllDialects()
+		d := ds[(len(o.SQL)+o.Flag)%len(ds)]
+		kw := keywords.New(d, o.Flag&1 == 0)
+		var sb strings.Builder
+		probe := func() {
+			for _, w := range []string{"SELECT", "UNDROP", "COPY", "GRANT", "QUALIFY", "ILIKE", "ZEROFILL", "ROWNUM", "PRAGMA", "TOP", "my_word", "other_word"} {
+				fmt.Fprintf(&sb, "%s:%v/%v/%v ", w, kw.IsKeyword(w), kw.IsReserved(w), kw.GetTokenType(w))
+			}
+		}
+		probe()
+		if o.Flag >= 2 {
+			_ = kw.AddKeyword(keywords.Keyword{Word: "MY_WORD", Type: models.TokenTypeKeyword, Reserved: true})
+			probe()
+		}
+		res = string(d) + " " + sb.String()
 	case ParserDialect:
-		d := []keywords.SQLDialect{keywords.DialectMySQL, keywords.DialectPostgreSQL, keywords.DialectSQLServer, keywords.DialectSQLite}[o.Flag]
+		ds := keywords.AllDialects()
+		d := ds[(len(o.SQL)+o.Flag)%len(ds)]
 		a, err := parser.ParseWithDialect(o.SQL, d)
 		res = treeCanon(a, err)
 		keepTree(a)
